@@ -238,6 +238,20 @@ def c_big_shr(ex, st, args, path, callee):
     return ret(Big(floor_shr(as_big(ex, args[0]).t, POW2(k))), path)
 
 
+BITS = z3.Function('bitlen', z3.IntSort(), z3.IntSort())
+
+
+def c_big_bits(ex, st, args, path, callee):
+    """BigInt::bits = bit length of the magnitude: an uninterpreted function with the threshold lemmas bits(x) <= c <=> |x| < 2^c"""
+    if not ex.intmode:
+        raise Unsupported('BigInt::bits in bit-vector mode')
+    a = as_big(ex, args[0]).t
+    mag = z3.If(a < 0, -a, a)
+    k = BITS(mag)
+    ex.extra_lemmas += [k >= 0] + [(k <= c) == (mag < (1 << c)) for c in (0, 1, 7, 8, 15, 16, 31, 32, 33, 63, 64, 65, 127, 128)]
+    return ret(k, path)
+
+
 def c_big_to_prim(ex, st, args, path, callee):
     mm = re.search(r'::to_([iu]\d+|[iu]size)$', callee)
     ty = mm.group(1)
@@ -324,6 +338,7 @@ BIGINT = [
     ('num_bigint::Sign !=', r'^<num_bigint::Sign as PartialEq>::ne$', c_sign_eq(True)),
     ('num_bigint::BigInt << u64 = x*2^k', r'BigInt as (std::ops::)?Shl<u64>>::shl$', c_big_shl),
     ('num_bigint::BigInt >> u64 = floor(x/2^k)', r'BigInt as (std::ops::)?Shr<u64>>::shr$', c_big_shr),
+    ('num_bigint::BigInt::bits = bit length of |x|', r'^num_bigint::BigInt::bits$', c_big_bits),
     ('num_bigint::BigInt to_iN/uN = Some iff fits', r'BigInt as (num_traits::)?ToPrimitive>::to_([iu]\d+|[iu]size)$', c_big_to_prim),
     ('num_bigint::BigInt to_f64 = round to nearest even', r'BigInt as (num_traits::)?ToPrimitive>::to_f64$', c_big_to_f64),
     ('num_bigint::BigInt from_f64 = truncate, None if not finite', r'BigInt as (num_traits::)?FromPrimitive>::from_f64$', c_big_from_f64),
